@@ -33,7 +33,8 @@ ASSUMPTIONS = [
     "weights are >= 0 with a positive total (the cumulative weight is monotone, so searchsorted = first index)",
     "weighted_median: fewer than 2^26 values (the rounding allowance midpoint*n*eps stays below half a weight)",
     "smoothers: finite input without NaN; window_width odd; kaiser without weights and without do_fit_edges",
-    "biweight estimators: c, epsilon, max_iter at their defaults; an explicit `initial` for the location lies "
+    "biweight estimators: c, epsilon, max_iter at their defaults (except op biloc_trace: the location with all its "
+    "options on NaN-free vectors of 2..14 values, max_iter = 0..6); an explicit `initial` for the location lies "
     "within the data range; options are passed by keyword",
     "float results are compared with the exact model value at 1e-9 relative tolerance; a case whose model run passes "
     "within 1e-9 of a comparison (mask |u|=1, convergence test, cumulative weight = midpoint +- allowance, "
@@ -54,6 +55,10 @@ TRUSTED_EXTRA = [
     "the model is given",
     "harness/vectrans.py + lean/CnvVerif/Model/NpVec.lean: the typed reading of the numpy vector subset in which the "
     "estimators of descriptives.py are written (Generated/ExprsDesc.lean; rules listed at the top of vectrans.py)",
+    "harness/breakloop.py: the reading of a bounded `for _ in range(N)` loop with one early `break` as a recursion with "
+    "fuel (Generated/ExprsDescLoop.lean: the outer loop of biweight_location; rules at the top of the file)",
+    "harness/padslices.py + lean/CnvVerif/Model/PadExt5.lean: Python's rule for a step -1 slice (negative bounds count from "
+    "the end, clipped to [-1, n-1]) in which smoothing._pad_array is written (Generated/ExprsPad.lean)",
 ]
 
 PREFIX = os.environ.get("VERIF_C19_MODEL", "") == "prefix"   # model of the unrepaired functions
